@@ -93,4 +93,198 @@ def toDT (g : XSD.GVal) : Lex.DTVal :=
   { month := g.month, day := g.day, hour := g.hour, minute := g.minute, second := g.second,
     micro := Lex.microOf g.frac, tz := g.tz }
 
+theorem microOf_nil : Lex.microOf [] = 0 := by decide
+
+theorem twoVal_cases (a b : Char) :
+    (Lex.twoVal a b = none ∧ ∀ lo hi, inRange a b lo hi = false) ∨
+    (Lex.twoVal a b = some (XSD.fragVal a b) ∧
+      ∀ lo hi, inRange a b lo hi = (decide (lo ≤ XSD.fragVal a b) && decide (XSD.fragVal a b ≤ hi))) := by
+  rw [twoVal_eq]
+  unfold inRange
+  cases Lex.isDigit a <;> cases Lex.isDigit b <;> simp
+
+theorem gDay_eq (s : List Char) : Lex.parseGDay s = (XSD.gDayLex s).map toDT := by
+  by_cases hsh : ∃ a b r, s = '-' :: '-' :: '-' :: a :: b :: r
+  · obtain ⟨a, b, r, rfl⟩ := hsh
+    rw [Lex.parseGDay.eq_1, XSD.gDayLex.eq_1]
+    rw [← day_ok, tzOpt_eq]
+    rcases twoVal_cases a b with ⟨h1, h2⟩ | ⟨h1, h2⟩
+    · simp [h1, h2]
+    · rw [h1, h2]
+      cases XSD.tzSuffix? r with
+      | none => simp
+      | some tz =>
+        by_cases hc : 1 ≤ XSD.fragVal a b ∧ XSD.fragVal a b ≤ 31
+        · simp [hc, toDT, microOf_nil]
+        · have : (decide (1 ≤ XSD.fragVal a b) && decide (XSD.fragVal a b ≤ 31)) = false := by
+            simp only [Bool.and_eq_false_iff, decide_eq_false_iff_not]; omega
+          simp [hc, this]
+  · have hno : ∀ a b r, s = '-' :: '-' :: '-' :: a :: b :: r → False := fun a b r e => hsh ⟨a, b, r, e⟩
+    rw [Lex.parseGDay.eq_2 s hno, XSD.gDayLex.eq_2 s hno]; rfl
+
+theorem gMonth_eq (s : List Char) : Lex.parseGMonth s = (XSD.gMonthLex s).map toDT := by
+  by_cases hsh : ∃ a b r, s = '-' :: '-' :: a :: b :: r
+  · obtain ⟨a, b, r, rfl⟩ := hsh
+    rw [Lex.parseGMonth.eq_1, XSD.gMonthLex.eq_1]
+    rw [← month_ok, tzOpt_eq]
+    rcases twoVal_cases a b with ⟨h1, h2⟩ | ⟨h1, h2⟩
+    · simp [h1, h2]
+    · rw [h1, h2]
+      cases XSD.tzSuffix? r with
+      | none => simp
+      | some tz =>
+        by_cases hc : 1 ≤ XSD.fragVal a b ∧ XSD.fragVal a b ≤ 12
+        · simp [hc, toDT, microOf_nil]
+        · have : (decide (1 ≤ XSD.fragVal a b) && decide (XSD.fragVal a b ≤ 12)) = false := by
+            simp only [Bool.and_eq_false_iff, decide_eq_false_iff_not]; omega
+          simp [hc, this]
+  · have hno : ∀ a b r, s = '-' :: '-' :: a :: b :: r → False := fun a b r e => hsh ⟨a, b, r, e⟩
+    rw [Lex.parseGMonth.eq_2 s hno, XSD.gMonthLex.eq_2 s hno]; rfl
+
+theorem gMonthDay_eq (s : List Char) : Lex.parseGMonthDay s = (XSD.gMonthDayLex s).map toDT := by
+  by_cases hsh : ∃ a b c d r, s = '-' :: '-' :: a :: b :: '-' :: c :: d :: r
+  · obtain ⟨a, b, c, d, r, rfl⟩ := hsh
+    rw [Lex.parseGMonthDay.eq_1, XSD.gMonthDayLex.eq_1]
+    rw [← month_ok, ← day_ok, tzOpt_eq]
+    rcases twoVal_cases a b with ⟨h1, h2⟩ | ⟨h1, h2⟩
+    · simp [h1, h2]
+    · rcases twoVal_cases c d with ⟨h3, h4⟩ | ⟨h3, h4⟩
+      · simp [h1, h3, h4]
+      · rw [h1, h2, h3, h4]
+        cases XSD.tzSuffix? r with
+        | none => simp
+        | some tz =>
+          by_cases hm : 1 ≤ XSD.fragVal a b ∧ XSD.fragVal a b ≤ 12
+          · have hdm := days_eq _ hm.1 hm.2
+            have hmax : XSD.maxDay (XSD.fragVal a b) ≤ 31 := by
+              unfold XSD.maxDay; split <;> (try split) <;> omega
+            by_cases hd : 1 ≤ XSD.fragVal c d ∧ XSD.fragVal c d ≤ XSD.maxDay (XSD.fragVal a b)
+            · have h31 : XSD.fragVal c d ≤ 31 := by omega
+              simp [hm, hd, hdm, h31, toDT, microOf_nil]
+            · have : ¬ (1 ≤ XSD.fragVal a b ∧ XSD.fragVal a b ≤ 12 ∧ 1 ≤ XSD.fragVal c d ∧
+                  XSD.fragVal c d ≤ Lex.daysIn2000 (XSD.fragVal a b)) := by rw [hdm]; omega
+              simp only [this, ↓reduceIte]
+              by_cases h1' : 1 ≤ XSD.fragVal c d
+              · have : ¬ XSD.fragVal c d ≤ XSD.maxDay (XSD.fragVal a b) := by omega
+                simp [this]
+              · simp [h1']
+          · have : ¬ (1 ≤ XSD.fragVal a b ∧ XSD.fragVal a b ≤ 12 ∧ 1 ≤ XSD.fragVal c d ∧
+                XSD.fragVal c d ≤ Lex.daysIn2000 (XSD.fragVal a b)) := by omega
+            have h2' : (decide (1 ≤ XSD.fragVal a b) && decide (XSD.fragVal a b ≤ 12)) = false := by
+              simp only [Bool.and_eq_false_iff, decide_eq_false_iff_not]; omega
+            simp [this, h2']
+  · have hno : ∀ a b c d r, s = '-' :: '-' :: a :: b :: '-' :: c :: d :: r → False :=
+      fun a b c d r e => hsh ⟨a, b, c, d, r, e⟩
+    rw [Lex.parseGMonthDay.eq_2 s hno, XSD.gMonthDayLex.eq_2 s hno]; rfl
+
+theorem frag24 : XSD.fragVal '2' '4' = 24 := by decide
+theorem frag00 : XSD.fragVal '0' '0' = 0 := by decide
+
+theorem is24 (a b : Char) :
+    (a == '2' && b == '4') = (Lex.isDigit a && Lex.isDigit b && decide (XSD.fragVal a b = 24)) := by
+  have := val_eq_iff a b '2' '4' (by decide) (by decide)
+  rw [frag24] at this; exact this.symm
+
+theorem is00 (a b : Char) :
+    (a == '0' && b == '0') = (Lex.isDigit a && Lex.isDigit b && decide (XSD.fragVal a b = 0)) := by
+  have := val_eq_iff a b '0' '0' (by decide) (by decide)
+  rw [frag00] at this; exact this.symm
+
+theorem time_eq (s : List Char) : Lex.parseTime s = (XSD.timeLex s).map toDT := by
+  by_cases hsh : ∃ a b c d e f r, s = a :: b :: ':' :: c :: d :: ':' :: e :: f :: r
+  · obtain ⟨a, b, c, d, e, f, r, rfl⟩ := hsh
+    rw [Lex.parseTime.eq_1, XSD.timeLex.eq_1, readFraction_eq]
+    cases hfr : XSD.fraction? r with
+    | none =>
+      cases Lex.twoVal a b <;> cases Lex.twoVal c d <;> cases Lex.twoVal e f <;> rfl
+    | some p =>
+      obtain ⟨fs, r'⟩ := p
+      simp only [tzOpt_eq]
+      have e00 : (c == '0' && d == '0' && e == '0' && f == '0') = ((c == '0' && d == '0') && (e == '0' && f == '0')) := by
+        simp [Bool.and_assoc]
+      rw [Bool.and_assoc (c == '0' && d == '0' && e == '0'), ]
+      rw [show (c == '0' && d == '0' && e == '0' && (f == '0' && fs.all (· == '0'))) =
+            ((c == '0' && d == '0') && (e == '0' && f == '0') && fs.all (· == '0')) by simp [Bool.and_assoc]]
+      rw [is24 a b, is00 c d, is00 e f, ← hour_ok, ← minute_ok, ← minute_ok]
+      rcases twoVal_cases a b with ⟨h1, h2⟩ | ⟨h1, h2⟩
+      · -- hour field not two digits
+        rw [twoVal_eq] at h1
+        have hd : (Lex.isDigit a && Lex.isDigit b) = false := by
+          cases hh : (Lex.isDigit a && Lex.isDigit b) with
+          | false => rfl
+          | true => rw [hh] at h1; simp at h1
+        rw [twoVal_eq, hd]
+        simp [hd, h2]
+      · rcases twoVal_cases c d with ⟨h3, h4⟩ | ⟨h3, h4⟩
+        · rw [twoVal_eq] at h3
+          have hd : (Lex.isDigit c && Lex.isDigit d) = false := by
+            cases hh : (Lex.isDigit c && Lex.isDigit d) with
+            | false => rfl
+            | true => rw [hh] at h3; simp at h3
+          rw [h1, twoVal_eq (a := c), hd]
+          simp [hd, h4]
+        · rcases twoVal_cases e f with ⟨h5, h6⟩ | ⟨h5, h6⟩
+          · rw [twoVal_eq] at h5
+            have hd : (Lex.isDigit e && Lex.isDigit f) = false := by
+              cases hh : (Lex.isDigit e && Lex.isDigit f) with
+              | false => rfl
+              | true => rw [hh] at h5; simp at h5
+            rw [h1, h3, twoVal_eq (a := e), hd]
+            simp [hd, h6]
+          · -- all three fields are two digits
+            have dab : (Lex.isDigit a && Lex.isDigit b) = true := by
+              rw [twoVal_eq] at h1; cases hh : (Lex.isDigit a && Lex.isDigit b) <;> simp_all
+            have dcd : (Lex.isDigit c && Lex.isDigit d) = true := by
+              rw [twoVal_eq] at h3; cases hh : (Lex.isDigit c && Lex.isDigit d) <;> simp_all
+            have def' : (Lex.isDigit e && Lex.isDigit f) = true := by
+              rw [twoVal_eq] at h5; cases hh : (Lex.isDigit e && Lex.isDigit f) <;> simp_all
+            rw [h1, h3, h5, h2, h4, h6, dab, dcd, def']
+            simp only [Bool.true_and, Nat.zero_le, decide_true]
+            cases htz : XSD.tzSuffix? r' with
+            | none =>
+              by_cases h24 : XSD.fragVal a b = 24
+              · simp [h24]
+              · simp [h24]
+            | some tz =>
+              by_cases h24 : XSD.fragVal a b = 24
+              · simp only [h24, beq_self_eq_true, ↓reduceIte, decide_true, Bool.true_and]
+                by_cases hz : XSD.fragVal c d = 0 ∧ XSD.fragVal e f = 0 ∧ fs.all (· == '0') = true
+                · simp [hz.1, hz.2.1, hz.2.2, toDT, microOf_nil]
+                · have : (XSD.fragVal c d == 0 && XSD.fragVal e f == 0 && fs.all (· == '0')) = false := by
+                    simp only [Bool.and_eq_false_iff, beq_eq_false_iff_ne]
+                    by_cases x1 : XSD.fragVal c d = 0
+                    · by_cases x2 : XSD.fragVal e f = 0
+                      · right; cases hx : fs.all (· == '0') with
+                        | false => rfl
+                        | true => exact absurd ⟨x1, x2, hx⟩ hz
+                      · left; right; exact x2
+                    · left; left; exact x1
+                  have this2 : (decide (XSD.fragVal c d = 0) && decide (XSD.fragVal e f = 0) && fs.all (· == '0')) = false := by
+                    simpa [beq_iff_eq] using this
+                  simp [this, this2]
+              · have hne : (XSD.fragVal a b == 24) = false := by simpa using h24
+                simp only [hne, Bool.false_eq_true, ↓reduceIte, h24, decide_false, Bool.false_and]
+                by_cases hr : XSD.fragVal a b ≤ 23 ∧ XSD.fragVal c d ≤ 59 ∧ XSD.fragVal e f ≤ 59
+                · simp [hr, toDT]
+                · have : (decide (XSD.fragVal a b ≤ 23) && decide (XSD.fragVal c d ≤ 59) && decide (XSD.fragVal e f ≤ 59)) = false := by
+                    simp only [Bool.and_eq_false_iff, decide_eq_false_iff_not]; omega
+                  simp [hr, this]
+  · have hno : ∀ a b c d e f r, s = a :: b :: ':' :: c :: d :: ':' :: e :: f :: r → False :=
+      fun a b c d e f r e' => hsh ⟨a, b, c, d, e, f, r, e'⟩
+    rw [Lex.parseTime.eq_2 s hno, XSD.timeLex.eq_2 s hno]; rfl
+
+/-- the four kinds together -/
+def specOf : Lex.GKind → List Char → Option XSD.GVal
+  | .gDay => XSD.gDayLex
+  | .gMonth => XSD.gMonthLex
+  | .gMonthDay => XSD.gMonthDayLex
+  | .time => XSD.timeLex
+
+theorem gParse_eq (k : Lex.GKind) (s : List Char) : Lex.gParse k s = (specOf k s).map toDT := by
+  cases k
+  · exact gDay_eq s
+  · exact gMonth_eq s
+  · exact gMonthDay_eq s
+  · exact time_eq s
+
 end EPV.LexLemmas
